@@ -198,7 +198,7 @@ func GenConc(r *core.Rng, store string) *ConcProgram {
 				p.Ops = append(p.Ops, &Op{Kind: "delete", B: concBucket, N: nm, Conds: c})
 			default:
 				ct := "text/c" + string(rune('0'+i))
-				p.Ops = append(p.Ops, &Op{Kind: "patch", B: concBucket, N: nm, PatchCT: &ct, Conds: c})
+				p.Ops = append(p.Ops, &Op{Kind: "patch", B: concBucket, N: nm, PatchCT: &ct, Conds: c, Computed: r.Chance(1, 3)})
 			}
 		}
 		return p
@@ -209,7 +209,7 @@ func GenConc(r *core.Rng, store string) *ConcProgram {
 			p.Ops = append(p.Ops, &Op{Kind: "upload", B: concBucket, N: name(), Content: append(content(), byte('A'+i)), Meta: meta(), Declared: "none", Proto: "multipart", Conds: conds()})
 		case 1:
 			ct := "text/p" + string(rune('0'+i))
-			o := &Op{Kind: "patch", B: concBucket, N: name(), PatchCT: &ct, Conds: conds()}
+			o := &Op{Kind: "patch", B: concBucket, N: name(), PatchCT: &ct, Conds: conds(), Computed: r.Chance(1, 3)}
 			if r.Chance(1, 2) {
 				o.Meta.UM = []KV{{K: "p", V: string(rune('0' + i))}}
 			}
